@@ -1,11 +1,11 @@
-import OrbitModel.Driver.Transport
+import OrbitModel.Driver.Addr
 open Orbit.Driver
 
-partial def loop (h : IO.FS.Stream) (w : World) : IO Unit := do
+partial def loop (h : IO.FS.Stream) (f : Full) : IO Unit := do
   let line ← h.getLine
   if line.isEmpty then return ()
-  let w := w.stepAll (line.trimAscii.toString)
-  for o in w.out do IO.println o
-  loop h { w with out := #[] }
+  let f := f.step (line.trimAscii.toString)
+  for o in f.w.out do IO.println o
+  loop h { f with w := { f.w with out := #[] } }
 
 def main : IO Unit := do loop (← IO.getStdin) {}
